@@ -1,8 +1,286 @@
-"""Witness candidates: concrete inputs run on the real crate (built from /repo's working tree) to attach a failing input
-to an obligation that the verifier has already failed. Never part of the verdict."""
-def search(pid, failure, repo_src):
-    return None, 0
-def run_cases(cases, repo_src):
-    return [None for _ in cases]
+"""Bounded differential stand-in and witness search (DESIGN.md 3.4): concrete cases run through the public API of the crate
+built from the repository under check, compared with the reference semantics of vx/oracle.py.
+
+Never counted as proof. Two uses: (1) attach a failing input to an obligation the verifier has failed; (2) stand in, labelled
+*bounded*, for a function that has fallen out of the verifier's reach (rewritten with constructs Verus cannot take).
+"""
+import os, re, json, subprocess, hashlib, random, shutil
+from . import oracle, corpus
+
+VERIF = os.path.dirname(os.path.dirname(os.path.abspath(__file__)))
+
+class DriverError(Exception):
+    pass
+
+def build_driver(repo_src):
+    root = os.path.dirname(os.path.abspath(repo_src))
+    tag = hashlib.sha1(root.encode()).hexdigest()[:10]
+    d = os.path.join(VERIF, 'build', 'driver_' + tag)
+    os.makedirs(d, exist_ok=True)
+    toml = ('[package]\nname = "vxdriver"\nversion = "0.0.0"\nedition = "2021"\n[[bin]]\nname = "vxdriver"\npath = "%s"\n'
+            '[dependencies]\nexpression_engine = { path = "%s" }\n[workspace]\n' % (os.path.join(VERIF, 'driver', 'src', 'main.rs'), root))
+    p = os.path.join(d, 'Cargo.toml')
+    if not os.path.exists(p) or open(p).read() != toml: open(p, 'w').write(toml)
+    if not os.path.exists(os.path.join(d, 'Cargo.lock')) and os.path.exists('/repo/Cargo.lock'):
+        shutil.copy('/repo/Cargo.lock', os.path.join(d, 'Cargo.lock'))
+    env = dict(os.environ, CARGO_NET_OFFLINE='true')
+    r = subprocess.run(['cargo', 'build', '--offline', '-q'], cwd=d, env=env, capture_output=True, text=True)
+    if r.returncode != 0:
+        raise DriverError('the crate under check does not build: ' + r.stderr[-1500:])
+    return os.path.join(d, 'target', 'debug', 'vxdriver')
+
+def run_cases(cases, repo_src, script=False, small_stack=False):
+    """cases: list of dicts (m, s, ...) -> list of result dicts (None where the process died: abort / stack overflow)"""
+    exe = build_driver(repo_src)
+    out = []
+    todo = list(cases)
+    while todo:
+        inp = '\n'.join(json.dumps(c) for c in todo) + '\n'
+        args = [exe] + (['--script'] if script else []) + (['--small-stack'] if small_stack else [])
+        r = subprocess.run(args, input=inp, capture_output=True, text=True, timeout=300)
+        lines = [l for l in r.stdout.split('\n') if l.strip()]
+        res = []
+        for l in lines:
+            try: res.append(json.loads(l))
+            except Exception: res.append({'garbled': l})
+        out += res
+        if len(res) < len(todo):
+            out.append(None)                     # the case after the last answer killed the process
+            if script:
+                out += [None] * (len(todo) - len(res) - 1)
+                break
+            todo = todo[len(res) + 1:]
+        else:
+            todo = []
+    return out
+
+# ---- value Debug parser (Rust) -> oracle value
+def parse_vdbg(s):
+    pos = [0]
+    def ws():
+        while pos[0] < len(s) and s[pos[0]] == ' ': pos[0] += 1
+    def val():
+        ws()
+        if s.startswith('Number(', pos[0]):
+            j = s.index(')', pos[0]); t = s[pos[0] + 7:j]; pos[0] = j + 1
+            return ('num', oracle.Decimal(t))
+        if s.startswith('Bool(', pos[0]):
+            j = s.index(')', pos[0]); t = s[pos[0] + 5:j]; pos[0] = j + 1
+            return ('bool', t == 'true')
+        if s.startswith('String("', pos[0]):
+            i = pos[0] + 8; o = ''
+            while s[i] != '"':
+                if s[i] == '\\':
+                    i += 1
+                    if s[i] == 'u':
+                        j = s.index('}', i); o += chr(int(s[i + 2:j], 16)); i = j
+                    else:
+                        o += {'n': '\n', 'r': '\r', 't': '\t', '0': '\0'}.get(s[i], s[i])
+                else: o += s[i]
+                i += 1
+            pos[0] = i + 2
+            return ('str', o)
+        if s.startswith('List([', pos[0]):
+            pos[0] += 6; items = []
+            while not s.startswith('])', pos[0]):
+                items.append(val()); ws()
+                if s[pos[0]] == ',': pos[0] += 1
+            pos[0] += 2
+            return ('list', items)
+        if s.startswith('Map([', pos[0]):
+            pos[0] += 5; items = []
+            while not s.startswith('])', pos[0]):
+                ws(); pos[0] += 1          # (
+                k = val(); ws(); pos[0] += 1   # ,
+                v = val(); ws(); pos[0] += 1   # )
+                items.append((k, v)); ws()
+                if s[pos[0]] == ',': pos[0] += 1
+            pos[0] += 2
+            return ('map', items)
+        if s.startswith('None', pos[0]):
+            pos[0] += 4; return ('none',)
+        raise ValueError('value debug: ' + s[pos[0]:pos[0] + 30])
+    return val()
+
+def strict_eq(a, b):
+    """value equality that also compares the scale of numbers (digits preserved)"""
+    if a[0] != b[0]: return False
+    if a[0] == 'num': return a[1] == b[1] and a[1].as_tuple().exponent == b[1].as_tuple().exponent
+    if a[0] == 'list': return len(a[1]) == len(b[1]) and all(strict_eq(x, y) for x, y in zip(a[1], b[1]))
+    if a[0] == 'map': return len(a[1]) == len(b[1]) and all(strict_eq(x[0], y[0]) and strict_eq(x[1], y[1]) for x, y in zip(a[1], b[1]))
+    return a == b
+
+# ---- categories: each returns a list of discrepancy dicts
+def _disc(cat, props, case, expected, observed, why):
+    return dict(category=cat, properties=props, case=case, expected=expected, observed=observed, why=why)
+
+def check_parse(repo_src, rnd, table=None, inputs=None):
+    ins = inputs if inputs is not None else (corpus.parse_cases() + corpus.corrupt(corpus.SEEDS + corpus.parse_cases()[:400], rnd, 1500))
+    ins = list(dict.fromkeys(ins))
+    cases = [dict(m='rt', s=s) for s in ins]
+    res = run_cases(cases, repo_src)
+    out = []
+    T = table or oracle.Table()
+    for c, r in zip(cases, res):
+        s = c['s']
+        if r is None or r.get('panic'):
+            out.append(_disc('parse', ['C01'], c, 'Ok or Err', 'panic/abort', 'parse_expression (or expr()/describe() of its result) did not return'))
+            continue
+        try:
+            ast = oracle.parse(s, T); exp = ('ok', oracle.dbg(ast))
+        except oracle.Reject as e:
+            exp = ('reject', str(e))
+        except oracle.Unknown:
+            exp = None
+        except RecursionError:
+            exp = None
+        if exp is not None:
+            if exp[0] == 'ok' and not r.get('ok'):
+                out.append(_disc('parse', ['C02', 'C05', 'C10'], c, exp[1], 'Err(%s)' % r.get('err'), 'a sentence of the documented grammar is rejected'))
+            elif exp[0] == 'reject' and r.get('ok'):
+                out.append(_disc('parse', ['C05', 'C10'], c, 'Err (%s)' % exp[1], r.get('ast'), 'malformed input is accepted'))
+            elif exp[0] == 'ok' and r.get('ast') != exp[1]:
+                out.append(_disc('parse', ['C02', 'C10', 'C09'], c, exp[1], r.get('ast'), 'the AST differs from the documented grouping / token text'))
+        if r.get('ok'):
+            if not r.get('ok2'):
+                out.append(_disc('roundtrip', ['C12'], c, 'expr() re-parses', 'expr()=%r -> Err(%s)' % (r.get('expr'), r.get('err2')), 'expr() output is not accepted by parse_expression'))
+            elif r.get('ast2') != r.get('ast'):
+                out.append(_disc('roundtrip', ['C12'], c, r.get('ast'), 'expr()=%r -> %s' % (r.get('expr'), r.get('ast2')), 'expr() output re-parses to a different AST'))
+            elif r.get('expr2') != r.get('expr'):
+                out.append(_disc('roundtrip', ['C12'], c, r.get('expr'), r.get('expr2'), 'expr() is not idempotent'))
+    return out, len(cases)
+
+def check_exec(repo_src, rnd, inputs=None):
+    ins = list(dict.fromkeys(inputs if inputs is not None else corpus.exec_cases()))
+    cases = [dict(m='exec', s=s) for s in ins]
+    res = run_cases(cases, repo_src)
+    out = []
+    for c, r in zip(cases, res):
+        s = c['s']
+        if r is None or r.get('panic'):
+            out.append(_disc('exec', ['C04', 'C01'], c, 'Ok or Err', 'panic/abort', 'evaluation did not return'))
+            continue
+        try:
+            ast = oracle.parse(s)
+        except (oracle.Reject, oracle.Unknown, RecursionError):
+            continue
+        ev = oracle.Ev()
+        try:
+            v = ev.ev(ast); exp = ('ok', v)
+        except oracle.EvalErr as e:
+            exp = ('err', str(e))
+        except (oracle.Unknown, RecursionError, oracle.InvalidOperation, ZeroDivisionError, OverflowError):
+            continue
+        trace = ';'.join(ev.trace)
+        if exp[0] == 'ok':
+            if not r.get('ok'):
+                out.append(_disc('exec', ['C03', 'C06', 'C09'], c, oracle.vdbg(v), 'Err(%s)' % r.get('err'), 'a defined evaluation fails')); continue
+            try: got = parse_vdbg(r['val'])
+            except Exception: continue
+            if not oracle.veq(got, v):
+                out.append(_disc('exec', ['C03', 'C04', 'C06', 'C09'], c, oracle.vdbg(v), r['val'], 'the value differs from the documented meaning')); continue
+            if not strict_eq(got, v) and all(ch in '0123456789.' for ch in s.strip()):
+                out.append(_disc('exec', ['C09'], c, oracle.vdbg(v), r['val'], 'digits / scale of an exact decimal result are not preserved')); continue
+        else:
+            if r.get('ok'):
+                out.append(_disc('exec', ['C03', 'C04', 'C06', 'C07'], c, 'Err (%s)' % exp[1], r['val'], 'a fault / type mismatch is not reported as Err')); continue
+        if r.get('trace', '') != trace and 'Number(' not in trace:
+            out.append(_disc('exec', ['C07', 'C08'], c, trace, r.get('trace'), 'context functions are invoked in a different order / number of times')); continue
+        if 'Number(' in trace and r.get('trace', '').count(';') != trace.count(';'):
+            out.append(_disc('exec', ['C07'], c, trace, r.get('trace'), 'a different number of context function calls')); continue
+        # bindings left in the context
+        exp_vars = {k: val for k, val in ev.vars.items()}
+        got_vars = {}
+        for item in [x for x in r.get('vars', '').split(';') if x]:
+            k, _, dv = item.partition('=')
+            try: got_vars[k] = parse_vdbg(dv)
+            except Exception: got_vars[k] = None
+        if set(exp_vars) != set(got_vars) or any(got_vars[k] is None or not oracle.veq(got_vars[k], exp_vars[k]) for k in exp_vars):
+            out.append(_disc('exec', ['C06', 'C07'], c, ';'.join('%s=%s' % (k, oracle.vdbg(exp_vars[k])) for k in sorted(exp_vars)), r.get('vars'), 'the bindings left in the context differ'))
+    return out, len(cases)
+
+def check_conv(repo_src, rnd):
+    ins = corpus.conv_cases()
+    cases = [dict(m='conv', s=s) for s in ins]
+    res = run_cases(cases, repo_src)
+    out = []
+    for c, r in zip(cases, res):
+        ty, _, val = c['s'].partition(':')
+        if r is None or r.get('panic'):
+            out.append(_disc('conv', ['C17'], c, 'a value', 'panic', 'conversion panicked')); continue
+        if r.get('bad') or not r.get('ok'): continue
+        if ty == 'dec':
+            try:
+                v = oracle.Ev().ev(oracle.parse(val))
+            except Exception: continue
+            if v[0] != 'num': continue
+            n = oracle.as_int(v[1])
+            exp = 'Some(%d)' % n if n is not None else 'None'
+            if r.get('int') != exp:
+                out.append(_disc('conv', ['C17', 'C04'], c, 'integer() = %s' % exp, r.get('int'), 'integer() of %s' % val))
+        else:
+            n = int(val)
+            try: got = parse_vdbg(r['val'])
+            except Exception: continue
+            if got[0] != 'num' or got[1] != n:
+                out.append(_disc('conv', ['C17'], c, 'Number(%d)' % n, r['val'], 'Value::from(%s) does not denote the integer' % c['s'])); continue
+            exp = 'Some(%d)' % n if -(2**63) <= n < 2**63 else 'None'
+            if r.get('int') != exp:
+                out.append(_disc('conv', ['C17', 'C04'], c, 'integer() = %s' % exp, r.get('int'), 'integer() of Value::from(%s)' % c['s']))
+    return out, len(cases)
+
+def check_scripts(repo_src, rnd):
+    out = []; n = 0
+    for sc in corpus.SCRIPTS + corpus.adjacency_scripts():
+        steps = []
+        for (m, s, extra) in sc['steps']:
+            d = dict(m=('rt' if m == 'parse' else m), s=s); d.update(extra); steps.append(d)
+        res = run_cases(steps, repo_src, script=True)
+        n += len(steps)
+        T = oracle.Table()
+        for name, (p, a, ty) in sc.get('table', {}).items(): T.infix[name] = (p, a, ty)
+        for st, ex, r in zip(sc['steps'], sc['expect'], res):
+            if st[0] == 'reg_infix' and st[1] not in T.infix: T.infix[st[1]] = (int(st[2].get('p', 100)), st[2].get('assoc', 'L'), 'CALC')
+            if st[0] == 'reg_postfix': T.postfix.add(st[1])
+            if st[0] == 'reg_prefix': T.prefix.add(st[1])
+            if ex is None: continue
+            case = dict(script=sc['name'], steps=[dict(m=m, s=s, **e) for (m, s, e) in sc['steps']], at=st[1])
+            if r is None or r.get('panic'):
+                out.append(_disc('script', ['C08', 'C01'], case, str(ex), 'panic/abort', 'step %r did not return' % (st,))); continue
+            if ex[0] == 'val' and r.get('val') != ex[1]:
+                out.append(_disc('script', ['C08'], case, ex[1], r.get('val') or ('Err(%s)' % r.get('err')), 'the most recently registered handler / the context binding is not the one used'))
+            elif ex[0] == 'ast' and r.get('ast') != ex[1]:
+                out.append(_disc('script', ['C08', 'C10'], case, ex[1], r.get('ast') or ('Err(%s)' % r.get('err')), 'a registration made after first use is not honoured by the tokenizer/parser'))
+            elif ex[0] == 'reject' and r.get('ok'):
+                out.append(_disc('script', ['C05', 'C10'], case, 'Err', r.get('ast'), 'accepted'))
+            elif ex[0] == 'table':
+                try: exp = oracle.dbg(oracle.parse(st[1], T))
+                except (oracle.Reject, oracle.Unknown): continue
+                if r.get('ast') != exp:
+                    out.append(_disc('script', ['C08', 'C02'], case, exp, r.get('ast') or ('Err(%s)' % r.get('err')), 'a registered operator does not parse with the precedence/associativity it was registered with'))
+    return out, n
+
+CATS = {'parse': check_parse, 'exec': check_exec, 'conv': check_conv, 'script': check_scripts}
+PROP_CATS = {'C01': ['parse'], 'C02': ['parse', 'script'], 'C03': ['exec'], 'C04': ['exec', 'conv'], 'C05': ['parse'], 'C06': ['exec'], 'C07': ['exec'], 'C08': ['script', 'exec'],
+             'C09': ['exec', 'parse'], 'C10': ['parse', 'script'], 'C12': ['parse'], 'C17': ['conv'], 'C18': ['parse']}
+_cache = {}
+def run_category(cat, repo_src, seed=0):
+    key = (cat, os.path.abspath(repo_src), seed)
+    if key not in _cache:
+        rnd = random.Random(seed)
+        _cache[key] = CATS[cat](repo_src, rnd)
+    return _cache[key]
+
+def search(pid, failure, repo_src, seed=0):
+    """-> (first discrepancy relevant to pid or None, number of cases tried)"""
+    tried = 0
+    for cat in PROP_CATS.get(pid, []):
+        ds, n = run_category(cat, repo_src, seed)
+        tried += n
+        for d in ds:
+            if pid in d['properties']:
+                return d, tried
+    return None, tried
+
 def violates(case, obs):
-    return False
+    return obs is None or bool(obs.get('panic'))
